@@ -1120,9 +1120,8 @@ class CountFingerprint(Fingerprint):
         float : Standard deviation
         """
         mean = self.mean()
-        return (
-            sum(v ** 2 for v in self._counts.values()) / self.bits - mean ** 2
-        ) ** 0.5
+        var = sum(v ** 2 for v in self._counts.values()) / self.bits - mean ** 2
+        return max(var, 0.0) ** 0.5
 
     def fold(self, *args, **kwargs):
         """Fold fingerprint while considering counts.
